@@ -1015,8 +1015,13 @@ def import_samename_scenario(rng):
     recognizer kind/length, all of them lookaheads of one reduction."""
     n = rng.randint(2, 3)
     mods = ["add", "sub", "mul"][:n]
-    kind = rng.choice(["str", "re", "re-overlap"])
+    kind = rng.choice(["str", "re", "re-overlap", "str-same"])
     texts = rng.sample(["+", "-", "*", "/", "%", "^"], n)
+    if kind == "str-same":
+        # the very same literal defined in several files: terminals that differ in
+        # nothing but their fully qualified name
+        texts = [texts[0]] * n
+        kind = "str"
     files = {}
     for m, t in zip(mods, texts):
         if kind == "str":
